@@ -25,6 +25,25 @@ type c10Case struct {
 	// elements of duplist are one and the same *AttributeValue (callers reuse
 	// constants); the stored item must not depend on that
 	Share bool `json:"share,omitempty"`
+	// Bulk: that many further items (short binaries, binary sets, nested
+	// binaries, numbers) are written to the same partition afterwards; then
+	// every item is read back (Get, Query, BatchGet in chunks of <= 100 keys)
+	Bulk int `json:"bulk,omitempty"`
+}
+
+// c10BulkItem is the i-th extra item of a bulk case.
+func c10BulkItem(pk model.AV, i int) model.Item {
+	bin := func(seed, n int) []byte {
+		b := make([]byte, n)
+		for j := range b {
+			b[j] = byte(seed*31 + j*7 + i)
+		}
+		return b
+	}
+	return model.Item{"pk": pk.Clone(), "sk": model.Str(fmt.Sprintf("bulk-%04d", i)),
+		"digest": model.Bin(bin(1, 32)), "tags": model.BinSet(bin(2, 20), bin(3, 24)),
+		"doc": model.Map(map[string]model.AV{"raw": model.Bin(bin(4, 48)), "l": model.List(model.Bin(bin(5, 16)), model.Num(fmt.Sprint(i)))}),
+		"n":   model.Num(fmt.Sprint(i * 3)), "s": model.Str(fmt.Sprintf("value-%d", i))}
 }
 
 func boundaryMembers(it model.Item) []string {
@@ -129,11 +148,52 @@ func runC10(c c10Case) (fl *failure) {
 				return newFail("round trip changed the item", "%s %s: wrote %s read %v", d.Name(), rd.name, model.CanonItem(want), model.CanonItems(got))
 			}
 		}
+		if c.Bulk > 0 {
+			all := []model.Item{want}
+			for i := 0; i < c.Bulk; i++ {
+				it := c10BulkItem(want["pk"], i)
+				if r := d.Apply(model.Op{Kind: "Put", Table: "tbl", Item: it}); r.Err != "" {
+					return newFail("valid item rejected", "%s PutItem (bulk item %d): %s %s", d.Name(), i, r.Err, r.ErrText)
+				}
+				all = append(all, it)
+			}
+			for i, it := range all {
+				k := model.Item{"pk": it["pk"], "sk": it["sk"]}
+				r := d.Apply(model.Op{Kind: "Get", Table: "tbl", Key: k})
+				if r.Err != "" || !model.ItemEqual(it, r.Item) {
+					return newFail("round trip changed the item", "%s GetItem after %d further writes: item %d wrote %s read %s %s", d.Name(), c.Bulk, i, model.CanonItem(it), model.CanonItem(r.Item), r.Err)
+				}
+			}
+			q := d.Apply(model.Op{Kind: "Query", Table: "tbl", KeyCond: "pk = :h", Values: map[string]model.AV{":h": want["pk"]}})
+			if q.Err != "" || !model.MultisetEqual(all, q.Items) {
+				return newFail("round trip changed the item", "%s Query after %d further writes: %d items written, %d read %s", d.Name(), c.Bulk, len(all), len(q.Items), q.Err)
+			}
+			if d.Name() == "v2" {
+				for from := 0; from < len(all); from += 100 {
+					to := from + 100
+					if to > len(all) {
+						to = len(all)
+					}
+					var keys []model.Item
+					for _, it := range all[from:to] {
+						keys = append(keys, model.Item{"pk": it["pk"], "sk": it["sk"]})
+					}
+					r := d.Apply(model.Op{Kind: "BatchGet", Batch: []model.TableBatch{{Table: "tbl", Keys: keys}}})
+					var got []model.Item
+					for _, tb := range r.Responses {
+						got = append(got, tb.Keys...)
+					}
+					if r.Err != "" || !model.MultisetEqual(all[from:to], got) {
+						return newFail("round trip changed the item", "%s BatchGetItem of %d stored keys: %d returned %s %s", d.Name(), to-from, len(got), r.Err, r.ErrText)
+					}
+				}
+			}
+		}
 	}
 	return nil
 }
 
-const ruleC10 = "rapid: items = S key + 1-6 attributes drawn from the full attribute-value generator (all ten types, nesting depth up to 6, forced boundary members: empty string, empty binary, empty list/map, false, NULL, single-element sets, numerals of every notation class incl. 40-digit trailing-zero forms, adjacent 19-36 digit numbers as values and as set members; a quarter of the cases with equal sub-values that share one pointer in the SDK v1 request), written with PutItem and read back through GetItem, Query, Scan (both SDK clients) and BatchGetItem (v2); half of the cases interpose an UpdateItem that sets an unrelated attribute so that every attribute passes through the expression interpreter's object mapping. Oracle: equality of names, types and values (sets as sets, numbers by numeric value). Non-trivial = the tree contains a boundary member or has depth >= 3; distinct = hash of the item."
+const ruleC10 = "rapid: items = S key + 1-6 attributes drawn from the full attribute-value generator (all ten types, nesting depth up to 6, forced boundary members: empty string, empty binary, empty list/map, false, NULL, single-element sets, numerals of every notation class incl. 40-digit trailing-zero forms, adjacent 19-36 digit numbers as values and as set members; a quarter of the cases with equal sub-values that share one pointer in the SDK v1 request), written with PutItem and read back through GetItem, Query, Scan (both SDK clients) and BatchGetItem (v2); one case in forty writes 26-400 further items full of short binaries to the same partition and reads everything back (GetItem, Query, BatchGetItem in chunks of up to 100 keys); half of the cases interpose an UpdateItem that sets an unrelated attribute so that every attribute passes through the expression interpreter's object mapping. Oracle: equality of names, types and values (sets as sets, numbers by numeric value). Non-trivial = the tree contains a boundary member or has depth >= 3; distinct = hash of the item."
 
 // TestC10 decides property C10.
 func TestC10(t *testing.T) {
@@ -169,6 +229,10 @@ func TestC10(t *testing.T) {
 			it["bigns"] = model.NumSet(base, d.Add(one).Plain(), d.Add(one).Add(one).Plain())
 			it["bign"] = model.Num(d.Add(one).Plain())
 			it["bigl"] = model.List(model.Num(base), model.Map(map[string]model.AV{"k": model.NumSet(base, d.Add(one).Plain())}))
+		}
+		if rapid.IntRange(0, 39).Draw(rt, "bulk") == 23 { // (rapid favours the ends of a range)
+			c.Bulk = rapid.SampledFrom([]int{26, 120, 400}).Draw(rt, "bulkItems")
+			st.Class("bulk-partition")
 		}
 		pending("C10", "c10", c)
 		depth := 0
@@ -421,7 +485,7 @@ func (g *tgen) batchOp(rt *rapid.T, max int) model.Op {
 	return model.Op{Kind: "BatchWrite", Batch: []model.TableBatch{tb}}
 }
 
-const ruleC15 = "rapid state machine: SetFailure(none | internal_server | deprecated, through EmulateFailure and through ActiveForceFailure / DeactiveForceFailure) interleaved with every data operation kind (Put, Update, Delete, Get, Query, Scan, BatchWrite with 1-16 requests over one to three tables, BatchGet, TransactWrite) and with requests that are invalid on their own account (malformed keys, unknown table, bad placeholders, malformed expressions, ill-typed updates, index-key type mismatches) on tables with 0-2 indexes, the same abstract history on both SDK clients against the reference model: while a condition is active every data call returns exactly the configured error class and the complete internal snapshot is unchanged; BatchWrite under internal_server reports every request as unprocessed (none applied, none dropped) identically in both clients; after deactivation the full observable state equals the model that skipped the failed calls and later operations agree with it. Non-trivial = history with >= 2 toggles and a write attempted under failure followed by a read after recovery; distinct = hash of the operation list."
+const ruleC15 = "rapid state machine: SetFailure(none | internal_server | deprecated, through EmulateFailure and through ActiveForceFailure / DeactiveForceFailure) interleaved with every data operation kind (Put, Update, Delete, Get, Query, Scan, BatchWrite with 1-16 requests over one to three tables or 13-25 requests for one table, BatchGet, TransactWrite) and with requests that are invalid on their own account (malformed keys, unknown table, bad placeholders, malformed expressions, ill-typed updates, index-key type mismatches) on tables with 0-2 indexes, the same abstract history on both SDK clients against the reference model: while a condition is active every data call returns exactly the configured error class and the complete internal snapshot is unchanged; BatchWrite under internal_server reports every request as unprocessed (none applied, none dropped) identically in both clients; after deactivation the full observable state equals the model that skipped the failed calls and later operations agree with it. Non-trivial = history with >= 2 toggles and a write attempted under failure followed by a read after recovery; distinct = hash of the operation list."
 
 // TestC15 decides property C15.
 func TestC15(t *testing.T) {
@@ -497,6 +561,24 @@ func TestC15(t *testing.T) {
 			"read":   func(rt *rapid.T) { data(g.readOp(rt, w.m, 20), false) },
 			"batchWrite": func(rt *rapid.T) {
 				op := g.batchOp(rt, 8)
+				if rapid.IntRange(0, 3).Draw(rt, "largeBatch") == 2 {
+					// 13-25 requests for one table, distinct synthetic keys
+					n := rapid.SampledFrom([]int{13, 16, 17, 18, 20, 24, 25}).Draw(rt, "largeBatchN")
+					op.Batch[0].Reqs = nil
+					a := g.s.KeyAttrs()[len(g.s.KeyAttrs())-1]
+					for i := 0; i < n; i++ {
+						it := g.item(rt)
+						it[a] = model.Str(fmt.Sprintf("many-%02d", i))
+						if rapid.IntRange(0, 4).Draw(rt, "largeDel") == 3 {
+							op.Batch[0].Reqs = append(op.Batch[0].Reqs, model.WriteReq{Delete: w.m.Tables[g.s.Table].KeyItem(it)})
+						} else {
+							op.Batch[0].Reqs = append(op.Batch[0].Reqs, model.WriteReq{Put: it})
+						}
+					}
+					st.Class("batch-of-13-25-requests-for-one-table")
+					data(op, true)
+					return
+				}
 				// most batches address several tables
 				if rapid.IntRange(0, 3).Draw(rt, "multiTable") > 0 {
 					op.Batch = append(op.Batch, g2.batchOp(rt, 4).Batch...)
